@@ -4,7 +4,4 @@ package main
 
 import "github.com/tink-crypto/tink-go/v2/internal/verifharness/kslib"
 
-func (e *engine) handleJobs(its []*item) []job                  { return nil }
-func (e *engine) keyJobs(its []*item) []job                     { return nil }
-func (e *engine) registrySection(p *kslib.Pool, its []*item)    {}
-func (e *engine) multiJobs(its []*item) []job                   { return nil }
+func (e *engine) registrySection(p *kslib.Pool, its []*item) {}
